@@ -687,6 +687,18 @@ func runNet(sc kit.Scenario, logger logging.Logger) ([]kit.Ev, error) {
 		}
 		links = append(links, ab)
 	}
+	// underlays a node has heard of (peer gossip) without being linked to their owner: address book only
+	heard := [][]int{}
+	for _, l := range kit.List(par, "heard") {
+		nt := intsOf(l)
+		if len(nt) != 2 || r.nodes[nt[0]] == nil || r.nodes[nt[1]] == nil {
+			return nil, fmt.Errorf("net scenario %d: bad heard pair %v", sc.Scn, l)
+		}
+		if err := r.nodes[nt[0]].book.Put(r.nodes[nt[1]].overlay, *r.nodes[nt[1]].addr); err != nil {
+			return nil, err
+		}
+		heard = append(heard, nt)
+	}
 	depths := []int{}
 	for _, x := range r.order {
 		r.force(r.nodes[x], nil)
@@ -694,7 +706,7 @@ func runNet(sc kit.Scenario, logger logging.Logger) ([]kit.Ev, error) {
 	}
 	var evs []kit.Ev
 	first := kit.Ev{"op": "reset", "kind": "net", "nodes": r.order, "links": links, "alpha": alpha, "maxttl": maxttl, "depths": depths,
-		"panicked": false}
+		"heard": heard, "panicked": false}
 	r.collectNone(first)
 	r.observe(first, nil)
 	evs = append(evs, first)
